@@ -87,6 +87,7 @@ def run_batch(h, lines, workdir, tag, scale=1.0, maxstack=0, hard_timeout=1800):
     """Runs the batch (list of 'id eps namehex contentspec') in child processes; resumes after a timeout or
     a death.  Returns list of records (id, ep, outcome, micros, limit, detail) — deaths included with
     outcome 'exit'/'fatal'/'signal' after re-running the culprit alone (attribution)."""
+    workdir = os.path.abspath(workdir)
     bpath = os.path.join(workdir, tag + ".batch")
     with open(bpath, "w") as f:
         f.write("\n".join(lines) + "\n")
@@ -149,6 +150,7 @@ def run_batch(h, lines, workdir, tag, scale=1.0, maxstack=0, hard_timeout=1800):
 
 def run_single(h, fields, ep, workdir, tag, scale=1.0, maxstack=0):
     """one (input, entry point) in its own child; returns one record"""
+    workdir = os.path.abspath(workdir)
     bpath = os.path.join(workdir, tag + ".batch")
     opath = os.path.join(workdir, tag + ".out")
     with open(bpath, "w") as f:
@@ -171,3 +173,680 @@ def run_single(h, fields, ep, workdir, tag, scale=1.0, maxstack=0):
             return (f[1], f[2], f[3], int(f[4]), int(f[5]), f[6] if len(f) > 6 else "-")
     kind, site = classify_death(rc, so, se)
     return (fields[0], ep, kind.split(":")[0], 0, 0, "%s %s" % (kind, site))
+
+
+# ------------------------------------------------------------------------------------------------ seeds and lexing
+
+SEED_EXT = (".wa", ".wz", ".wat", ".ws", ".s")
+
+
+def lang_of(path):
+    p = path.lower()
+    if p.endswith(".wz"):
+        return "wz"
+    if p.endswith(".wa"):
+        return "wa"
+    if p.endswith(".wat") or p.endswith(".ws"):
+        return "wat"
+    return "asm"
+
+
+def collect_seeds():
+    """every .wa/.wz/.wat/.ws/.s file under the repository (sorted: deterministic)"""
+    out = []
+    for root, dirs, files in os.walk(vlib.REPO):
+        dirs[:] = sorted(d for d in dirs if d != ".git")
+        for f in sorted(files):
+            if f.endswith(SEED_EXT):
+                p = os.path.join(root, f)
+                if not os.path.isfile(p):
+                    continue
+                out.append(p)
+    return out
+
+
+_LEX_COMMON = rb'''
+  (?P<ws>[ \t\r\n]+)
+ |(?P<lc>//[^\n]*|\#[^\n]*|;;[^\n]*)
+ |(?P<bc>/\*.*?\*/|\(;.*?;\))
+ |(?P<str>"(?:\\.|[^"\\\n])*"|`[^`]*`|'(?:\\.|[^'\\\n])*')
+ |(?P<num>0[xX][0-9a-fA-F_]+|[0-9][0-9_]*(?:\.[0-9_]*)?(?:[eE][+-]?[0-9]+)?)
+'''
+_LEX_OPS = rb'''
+ |(?P<op><<=|>>=|&\^=|\.\.\.|&&|\|\||<-|\+\+|--|==|!=|<=|>=|:=|=>|\+=|-=|\*=|/=|%=|&=|\|=|\^=|<<|>>|&\^|\xc2\xb7|.)
+'''
+LEX = {
+    "src": re.compile(_LEX_COMMON + rb' |(?P<id>(?:[A-Za-z_]|[\xc3-\xf4][\x80-\xbf]+)(?:[A-Za-z0-9_]|[\xc3-\xf4][\x80-\xbf]+)*)' + _LEX_OPS, re.X | re.S),
+    "asm": re.compile(_LEX_COMMON + rb' |(?P<id>[A-Za-z_$.@%\x80-\xff][A-Za-z0-9_$.@%\x80-\xff]*)' + _LEX_OPS, re.X | re.S),
+}
+
+
+def lex(data, lang):
+    """[(kind, start, end)] covering data completely"""
+    rx = LEX["src" if lang in ("wa", "wz") else "asm"]
+    toks = []
+    pos = 0
+    for m in rx.finditer(data):
+        toks.append((m.lastgroup, m.start(), m.end()))
+        pos = m.end()
+    return toks
+
+
+OPEN = {b"(": b")", b"[": b"]", b"{": b"}"}
+CLOSE = {v: k for k, v in OPEN.items()}
+KEYWORDS = {
+    "wa": [b"func", b"type", b"struct", b"interface", b"if", b"else", b"for", b"range", b"return", b"var", b"const", b"import",
+           b"switch", b"case", b"default", b"break", b"continue", b"defer", b"map", b"global", b"package", b"this", b"=>", b":"],
+    "wz": ["引入".encode(), "常量".encode(), "全局".encode(), "类型".encode(), "函数".encode(), "设定".encode(), "结构".encode(),
+           "字典".encode(), "接口".encode(), "如果".encode(), "或者".encode(), "否则".encode(), "找辙".encode(), "有辙".encode(),
+           "没辙".encode(), "循环".encode(), "迭代".encode(), "继续".encode(), "跳出".encode(), "押后".encode(), "返回".encode(),
+           "区块".encode(), "完毕".encode(), "·".encode(), b":", "注:".encode()],
+    "wat": [b"module", b"func", b"param", b"result", b"local", b"global", b"memory", b"data", b"table", b"elem", b"type", b"import",
+            b"export", b"start", b"block", b"loop", b"if", b"else", b"end", b"mut", b"i32", b"i64", b"f32", b"f64", b"funcref",
+            b"i32.const", b"call", b"call_indirect", b"br", b"br_if", b"br_table", b"local.get", b"offset", b"align"],
+    "asm": [b".section", b".text", b".data", b".globl", b".global", b".align", b".ascii", b".asciz", b".quad", b".long", b".byte",
+            b".skip", b".intel_syntax", b"noprefix", b".extern", b".file", b".size", b".type", b".set", b".incbin", b"%hi", b"%lo",
+            b"%pcrel_hi", b"%pcrel_lo", "函数".encode(), "完毕".encode(), "全局".encode(), "常量".encode()],
+}
+
+
+class Seeds:
+    def __init__(self):
+        self.paths = collect_seeds()
+        self.by_lang = {"wa": [], "wz": [], "wat": [], "asm": []}
+        self.data = {}
+        self.toks = {}
+        self.pool = {}
+        for p in self.paths:
+            self.by_lang[lang_of(p)].append(p)
+
+    def get(self, p):
+        if p not in self.data:
+            self.data[p] = open(p, "rb").read()
+        return self.data[p]
+
+    def tokens(self, p):
+        if p not in self.toks:
+            self.toks[p] = lex(self.get(p), lang_of(p))
+        return self.toks[p]
+
+    def token_pool(self, lang, rng):
+        """tokens that occur in the seeds of this language (sampled files), plus the keyword list"""
+        if lang not in self.pool:
+            seen = {}
+            paths = self.by_lang[lang]
+            for p in paths[:: max(1, len(paths) // 40)]:
+                d = self.get(p)
+                for k, a, b in self.tokens(p):
+                    if k in ("id", "op", "num", "str") and b - a <= 40:
+                        seen[d[a:b]] = seen.get(d[a:b], 0) + 1
+            top = sorted(seen, key=lambda t: (-seen[t], t))[:300]
+            self.pool[lang] = top + KEYWORDS[lang] * 3 + [b"(", b")", b"[", b"]", b"{", b"}", b",", b";", b"\n"]
+        return self.pool[lang]
+
+
+# ------------------------------------------------------------------------------------------------ mutators
+
+DEPTHS_QUICK = [50, 1000, 10000, 100000]
+DEPTHS_THOROUGH = [50, 1000, 10000, 100000, 1000000]
+
+
+def pick_depth(rng, tier):
+    ds = DEPTHS_QUICK if tier == "quick" else DEPTHS_THOROUGH
+    # small depths most of the time; the largest ones rarely (cost)
+    w = [8, 6, 3, 1, 0.3][:len(ds)]
+    return rng.choices(ds, weights=w)[0]
+
+
+def mutate_tokens(rng, data, toks, lang, pool, tier):
+    """1..3 token-level mutations of a mostly-valid source; returns (bytes, [mutation names])"""
+    parts = [data[a:b] for _, a, b in toks]
+    kinds = [k for k, _, _ in toks]
+    sig = [i for i, k in enumerate(kinds) if k not in ("ws",)]
+    names = []
+    if not sig:
+        return data, ["none"]
+    for _ in range(rng.choice([1, 1, 1, 2, 2, 3])):
+        if not sig:
+            break
+        i = rng.choice(sig)
+        m = rng.choice(["delete", "duplicate", "swap", "replace", "replace", "unbalance", "unbalance", "nest", "huge",
+                        "unterminated", "insert_kw", "delete_range", "dup_range"])
+        names.append(m)
+        if m == "delete":
+            parts[i] = b""
+        elif m == "duplicate":
+            parts[i] = parts[i] + b" " + parts[i]
+        elif m == "swap":
+            j = rng.choice(sig)
+            parts[i], parts[j] = parts[j], parts[i]
+        elif m == "replace":
+            parts[i] = rng.choice(pool)
+        elif m == "insert_kw":
+            parts[i] = parts[i] + b" " + rng.choice(KEYWORDS[lang]) + b" "
+        elif m == "unbalance":
+            br = [j for j in sig if parts[j] in OPEN or parts[j] in CLOSE]
+            if br and rng.random() < 0.6:
+                parts[rng.choice(br)] = b""
+            else:
+                parts[i] = parts[i] + rng.choice([b"(", b")", b"[", b"]", b"{", b"}"])
+        elif m == "nest":
+            d = pick_depth(rng, tier)
+            o = rng.choice([b"(", b"[", b"{", b"-", b"!", b"*", b"&", b"^", b"+", b"[]", b"func(", b"struct{a ", b"if x {", b"f(",
+                            b"(block ", b"block\n", b"(", b"("])
+            c = {b"(": b")", b"[": b"]", b"{": b"}", b"func(": b")", b"struct{a ": b"}", b"if x {": b"}", b"f(": b")",
+                 b"(block ": b")", b"block\n": b"end\n"}.get(o, b"")
+            keep_close = rng.random() < 0.7
+            parts[i] = o * d + parts[i] + (c * d if keep_close else b"")
+        elif m == "huge":
+            n = rng.choice([1000, 20000, 200000] if tier == "quick" else [1000, 20000, 200000, 2000000])
+            k = rng.choice(["digits", "hex", "float", "string", "ident", "comment", "rawstring", "exp"])
+            if k == "digits":
+                parts[i] = b"1" + b"0" * n
+            elif k == "hex":
+                parts[i] = b"0x" + b"f" * n
+            elif k == "float":
+                parts[i] = b"1." + b"9" * n + b"e" + b"9" * rng.choice([1, 5, 50])
+            elif k == "exp":
+                parts[i] = b"1e" + b"9" * rng.choice([3, 6, 9, 12, 30])
+            elif k == "string":
+                parts[i] = b'"' + b"a" * n + b'"'
+            elif k == "rawstring":
+                parts[i] = b"`" + b"a\n" * (n // 2) + b"`"
+            elif k == "ident":
+                parts[i] = b"a" * n
+            else:
+                parts[i] = b"/*" + b"x" * n + b"*/"
+        elif m == "unterminated":
+            parts[i] = parts[i] + rng.choice([b' "abc', b" /* abc", b" 'a", b" `abc", b" '\\", b' "\\', b" (; abc", b' "\\u12',
+                                              b" '\\x", b' "\\777"', b" 0x", b" 1e", b" 0b", b" 1__2", b" '", b'"'])
+        elif m == "delete_range":
+            j = min(len(parts), i + rng.randrange(1, 30))
+            for k in range(i, j):
+                parts[k] = b""
+        elif m == "dup_range":
+            j = min(len(parts), i + rng.randrange(1, 30))
+            parts[i] = b"".join(parts[i:j]) + parts[i]
+    return b"".join(parts), names
+
+
+BAD_UTF8 = [b"\xff", b"\xfe", b"\xc0\x80", b"\xe4\xb8", b"\xf0\x9f\x98", b"\xed\xa0\x80", b"\xf8\x88\x80\x80\x80", b"\x80",
+            b"\xc3", b"\xef\xbf\xbe", b"\xf4\x90\x80\x80"]
+BOM = b"\xef\xbb\xbf"
+
+
+def mutate_bytes(rng, data, seeds, lang):
+    names = []
+    b = bytearray(data)
+    for _ in range(rng.choice([1, 1, 2, 3, 5])):
+        m = rng.choice(["flip", "insert_rand", "bad_utf8", "nul", "bom", "crlf", "cr", "delete", "dup", "splice", "overwrite_rand",
+                        "ctrl", "bad_utf8_many"])
+        names.append(m)
+        n = len(b)
+        at = rng.randrange(0, n + 1) if n else 0
+        if m == "flip" and n:
+            at = rng.randrange(n)
+            b[at] ^= 1 << rng.randrange(8)
+        elif m == "insert_rand":
+            b[at:at] = bytes(rng.getrandbits(8) for _ in range(rng.choice([1, 2, 4, 16])))
+        elif m == "overwrite_rand" and n:
+            k = rng.choice([1, 2, 8, 64])
+            at = rng.randrange(n)
+            b[at:at + k] = bytes(rng.getrandbits(8) for _ in range(k))
+        elif m == "bad_utf8":
+            b[at:at] = rng.choice(BAD_UTF8)
+        elif m == "bad_utf8_many":
+            for _ in range(20):
+                at = rng.randrange(0, len(b) + 1)
+                b[at:at] = rng.choice(BAD_UTF8)
+        elif m == "nul":
+            b[at:at] = b"\x00" * rng.choice([1, 1, 3, 100])
+        elif m == "ctrl":
+            b[at:at] = bytes([rng.choice([1, 7, 8, 11, 12, 27, 127, 0x85, 0xa0])])
+        elif m == "bom":
+            pos = rng.choice([0, 0, at])
+            b[pos:pos] = BOM * rng.choice([1, 1, 2])
+        elif m == "crlf":
+            b = bytearray(bytes(b).replace(b"\r\n", b"\n").replace(b"\n", b"\r\n"))
+        elif m == "cr":
+            b = bytearray(bytes(b).replace(b"\n", b"\r") if rng.random() < 0.5 else bytes(b).replace(b"\n", b"\n\r"))
+        elif m == "delete" and n:
+            at = rng.randrange(n)
+            del b[at:at + rng.choice([1, 2, 8, 64, 512])]
+        elif m == "dup" and n:
+            at = rng.randrange(n)
+            k = rng.choice([1, 8, 64, 512])
+            b[at:at] = b[at:at + k]
+        elif m == "splice":
+            other = seeds.get(rng.choice(seeds.by_lang[rng.choice(["wa", "wz", "wat", "asm"])]))
+            if other:
+                o = rng.randrange(len(other))
+                b[at:] = other[o:o + rng.choice([16, 256, 4096])]
+    return bytes(b), names
+
+
+def deep_family(lang, fam, d):
+    """dedicated recursion-depth / size probes: content of 'size' d for a named family"""
+    D = d
+    if lang == "wa":
+        pre, post = b"func main() {\n\tx := ", b"\n\t_ = x\n}\n"
+        T = {
+            "paren": pre + b"(" * D + b"1" + b")" * D + post,
+            "paren_open": pre + b"(" * D + post,
+            "neg": pre + b"-" * D + b"1" + post,
+            "not": pre + b"!" * D + b"true" + post,
+            "star": pre + b"*" * D + b"p" + post,
+            "addr": pre + b"&" * D + b"p" + post,
+            "index": pre + b"a" + b"[0]" * D + post,
+            "index_open": pre + b"a" + b"[" * D + post,
+            "call": pre + b"f(" * D + b")" * D + post,
+            "binary": pre + b"1" + b"+1" * D + post,
+            "strcat": pre + b'"a"' + b'+"a"' * D + post,
+            "selector": pre + b"a" + b".b" * D + post,
+            "methodchain": pre + b"a" + b".f()" * D + post,
+            "complit": pre + b"T" + b"{" * D + b"}" * D + post,
+            "brace_open": b"func main() " + b"{" * D,
+            "block": b"func main() " + b"{" * D + b"}" * D + b"\n",
+            "if": b"func main() {\n" + b"if x {\n" * D + b"}\n" * D + b"}\n",
+            "elseif": b"func main() {\nif x {}" + b" else if x {}" * D + b"\n}\n",
+            "for": b"func main() {\n" + b"for {\n" * D + b"}\n" * D + b"}\n",
+            "slicetype": b"type T " + b"[]" * D + b"int\n",
+            "ptrtype": b"type T " + b"*" * D + b"int\n",
+            "functype": b"type T " + b"func(" * D + b")" * D + b"\n",
+            "structtype": b"type T " + b"struct{a " * D + b"int" + b"}" * D + b"\n",
+            "maptype": b"type T " + b"map[int]" * D + b"int\n",
+            "parentype": b"type T " + b"(" * D + b"int" + b")" * D + b"\n",
+            "funclit": pre + b"func() { _ = " * D + b"1" + b"}" * D + post,
+            "digits": pre + b"1" + b"0" * D + post,
+            "floatdigits": pre + b"1." + b"9" * D + post,
+            "string": pre + b'"' + b"a" * D + b'"' + post,
+            "ident": pre + b"a" * D + post,
+            "comment": b"/*" + b"x" * D + b"*/\nfunc main() {}\n",
+            "linecomments": b"// x\n" * D + b"func main() {}\n",
+            "newlines": b"\n" * D + b"func main() {}\n",
+            "errors": b"func main() {\n" + b") ] ;\n" * D + b"}\n",
+            "stmts": b"func main() {\n" + b"x := 1\n" * D + b"}\n",
+            "funcs": b"".join(b"func f%d() {}\n" % i for i in range(D)),
+            "redecl": b"func f() {}\n" * D,
+            "vars": b"".join(b"global v%d = v%d\n" % (i, i + 1) for i in range(D)) + b"global v%d = 1\n" % D,
+            "typecycle": b"".join(b"type T%d T%d\n" % (i, i + 1) for i in range(D)) + b"type T%d int\n" % D,
+            "params": b"func f(" + b"a int, " * D + b"b int) {}\n",
+            "cases": b"func main() {\nswitch x {\n" + b"case 1:\n" * D + b"}\n}\n",
+            "imports": b'import "fmt"\n' * D,
+            "unterminated_str": pre + b'"' + b"a" * D,
+            "unterminated_comment": b"func main() {} /*" + b"a" * D,
+            "nul": b"\x00" * D,
+            "bad_utf8": b"\xff" * D,
+            "bom": BOM * D,
+        }
+    elif lang == "wz":
+        f = "函数·主控:\n".encode()
+        e = "完毕\n".encode()
+        T = {
+            "paren": f + "\t甲 := ".encode() + b"(" * D + b"1" + b")" * D + b"\n" + e,
+            "paren_open": f + "\t甲 := ".encode() + b"(" * D,
+            "neg": f + "\t甲 := ".encode() + b"-" * D + b"1\n" + e,
+            "not": f + "\t甲 := ".encode() + b"!" * D + b"1\n" + e,
+            "binary": f + "\t甲 := 1".encode() + b"+1" * D + b"\n" + e,
+            "index": f + "\t甲 := 乙".encode() + b"[0]" * D + b"\n" + e,
+            "call": f + "\t甲 := ".encode() + "乙(".encode() * D + b")" * D + b"\n" + e,
+            "selector": f + "\t甲 := 乙".encode() + "·丙".encode() * D + b"\n" + e,
+            "if": f + "如果 甲:\n".encode() * D + e * D + e,
+            "if_open": f + "如果 甲:\n".encode() * D,
+            "loop": f + "循环:\n".encode() * D + e * D + e,
+            "block": f + "区块:\n".encode() * D + e * D + e,
+            "elseif": f + "如果 甲:\n".encode() + "或者 甲:\n".encode() * D + e + e,
+            "slicetype": "类型·甲: ".encode() + b"[]" * D + "整型\n".encode(),
+            "ptrtype": "类型·甲: ".encode() + b"*" * D + "整型\n".encode(),
+            "structs": "结构·甲:\n".encode() * D,
+            "fields": "结构·甲:\n".encode() + "\t乙: 整型\n".encode() * D + e,
+            "stmts": f + "\t甲 := 1\n".encode() * D + e,
+            "funcs": b"".join("函数·甲{}:\n完毕\n".format(i).encode() for i in range(D)),
+            "consts": "常量:\n".encode() + "\t甲 = 1\n".encode() * D + e,
+            "imports": '引入 "书"\n'.encode() * D,
+            "comments": "注: 甲\n".encode() * D,
+            "digits": f + "\t甲 := 1".encode() + b"0" * D + b"\n" + e,
+            "string": f + '\t甲 := "'.encode() + b"a" * D + b'"\n' + e,
+            "ident": f + "\t".encode() + "甲".encode() * D + b" := 1\n" + e,
+            "errors": f + b") ] ;\n" * D + e,
+            "ends": e * D,
+            "dots": "·".encode() * D,
+            "colons": f + b":\n" * D,
+            "unterminated_str": f + '\t甲 := "'.encode() + b"a" * D,
+        }
+    elif lang == "wat":
+        T = {
+            "paren_open": b"(module " + b"(" * D,
+            "paren": b"(module " + b"(" * D + b")" * D + b")",
+            "modules": b"(module " * D + b")" * D,
+            "block": b"(module (func $f\n" + b"block\n" * D + b"end\n" * D + b"))",
+            "block_open": b"(module (func $f\n" + b"block\n" * D,
+            "loop": b"(module (func $f\n" + b"loop\n" * D + b"end\n" * D + b"))",
+            "if": b"(module (func $f\n" + b"i32.const 1\nif\n" * D + b"end\n" * D + b"))",
+            "else": b"(module (func $f\ni32.const 1\nif\n" + b"else\n" * D + b"end\n))",
+            "folded": b"(module (func $f " + b"(block " * D + b")" * D + b"))",
+            "insts": b"(module (func $f\n" + b"nop\n" * D + b"))",
+            "consts": b"(module (func $f\n" + b"i32.const 1\ndrop\n" * D + b"))",
+            "funcs": b"(module\n" + b"".join(b"(func $f%d)\n" % i for i in range(D)) + b")",
+            "params": b"(module (func $f " + b"(param i32) " * D + b"))",
+            "results": b"(module (func $f " + b"(result i32) " * D + b"))",
+            "locals": b"(module (func $f " + b"(local i32) " * D + b"))",
+            "types": b"(module " + b"(type (func)) " * D + b")",
+            "brtable": b"(module (func $f\nblock\ni32.const 0\nbr_table " + b"0 " * D + b"\nend\n))",
+            "data": b'(module (memory 1) (data (i32.const 0) "' + b"a" * D + b'"))',
+            "datas": b"(module (memory 1) " + b'(data (i32.const 0) "a") ' * D + b")",
+            "dataesc": b'(module (memory 1) (data (i32.const 0) "' + b"\\00" * D + b'"))',
+            "elems": b"(module (table 1 funcref) (elem (i32.const 0) " + b"$f " * D + b"))",
+            "digits": b"(module (func $f\ni32.const 1" + b"0" * D + b"\n))",
+            "hex": b"(module (func $f\ni64.const 0x" + b"f" * D + b"\n))",
+            "ident": b"(module (func $" + b"a" * D + b"))",
+            "comments": b";; x\n" * D + b"(module)",
+            "blockcomment": b"(;" + b"x" * D + b";)(module)",
+            "blockcomment_nested": b"(;" * D + b";)" * D + b"(module)",
+            "blockcomment_open": b"(module) (;" + b"x" * D,
+            "string_open": b'(module (data (i32.const 0) "' + b"a" * D,
+            "closers": b")" * D,
+            "exports": b"(module (func $f " + b'(export "a") ' * D + b"))",
+            "imports": b"(module " + b'(import "a" "b" (func $f)) ' * D + b")",
+            "memarg": b"(module (memory 1) (func $f\ni32.const 0\ni32.load offset=1" + b"0" * D + b"\ndrop\n))",
+        }
+    else:
+        T = {
+            "paren_open": b".section .text\nf:\n\taddi a0, a0, " + b"(" * D,
+            "paren": b".section .text\nf:\n\taddi a0, a0, " + b"(" * D + b"1" + b")" * D + b"\n",
+            "insts": b".section .text\nf:\n" + b"\tnop\n" * D,
+            "labels": b".section .text\n" + b"".join(b"f%d:\n\tnop\n" % i for i in range(D)),
+            "sections": b".section .text\n" * D,
+            "datas": b".section .data\n" + b"x: .quad 1\n" * D,
+            "ascii": b'.section .data\nx: .ascii "' + b"a" * D + b'"\n',
+            "ascii_open": b'.section .data\nx: .ascii "' + b"a" * D,
+            "comments": b"# x\n" * D + b".section .text\n",
+            "slashcomments": b"// x\n" * D,
+            "digits": b".section .data\nx: .quad 1" + b"0" * D + b"\n",
+            "hex": b".section .data\nx: .quad 0x" + b"f" * D + b"\n",
+            "ident": b".section .text\n" + b"a" * D + b":\n",
+            "globls": b".globl f\n" * D,
+            "externs": b".extern f\n" * D,
+            "semis": b";" * D,
+            "newlines": b"\n" * D,
+            "commas": b".section .data\nx: .byte " + b"1," * D + b"1\n",
+            "skip": b".section .data\nx: .skip 1" + b"0" * min(D, 30) + b"\n",
+            "zh_func": "函数 f:\n".encode() * D,
+            "intel": b".intel_syntax noprefix\n" * D,
+            "plus": b".section .text\nf:\n\taddi a0, a0, 1" + b"+1" * D + b"\n",
+            "minus": b".section .text\nf:\n\taddi a0, a0, " + b"-" * D + b"1\n",
+        }
+    return T[fam] if fam else sorted(T)
+
+
+# ------------------------------------------------------------------------------------------------ input streams
+
+OWN_EPS = {
+    "wa": ["syntax", "format", "parsewa", "checkwa"],
+    "wz": ["syntax", "format", "parsewz", "checkwz"],
+    "wat": ["syntax", "format", "wat"],
+    "asm": ["syntax", "format", "nasm_la", "nasm_rv", "nasm_x64", "nasm_arm"],
+}
+LOAD_EP = {"wa": "loadwa", "wz": "loadwz"}
+OWN_NAME = {"wa": b"c08.wa", "wz": b"c08.wz", "wat": b"c08.wat", "asm": b"c08.wa.s"}
+ALL_EPS = ["syntax", "format", "parsewa", "parsewz", "checkwa", "checkwz", "loadwa", "loadwz", "wat",
+           "nasm_la", "nasm_rv", "nasm_x64", "nasm_arm"]
+
+# file-name classes (stream iv and the dispatch correspondence)
+NAME_CLASSES = [
+    ("wa", b"a.wa"), ("wz", b"a.wz"), ("wat", b"a.wat"), ("wa.s", b"a.wa.s"), ("wz.s", b"a.wz.s"),
+    ("upper-wa", b"A.WA"), ("mixed-wz", b"a.Wz"), ("upper-wat", b"DIR/A.WAT"), ("upper-wa.s", b"a.WA.S"), ("mixed-wz.s", b"a.wZ.s"),
+    ("none", b"a"), ("empty", b""), ("unknown-txt", b"a.txt"), ("unknown-s", b"a.s"), ("unknown-ws", b"a.ws"),
+    ("unknown-go", b"a.wa.go"), ("double-wa.txt", b"a.wa.txt"), ("double-wat.wa", b"a.wat.wa"), ("double-wa.wat", b"a.wa.wat"),
+    ("double-wz.wa.s", b"a.wz.wa.s"), ("dotfile-wa", b".wa"), ("dotfile-wa.s", b".wa.s"), ("bare-wa", b"wa"), ("trailing-dot", b"a.wa."),
+    ("dot-dot", b"a..wa"), ("dir-with-ext", b"d.wa/a"), ("dir-with-ext-slash", b"a.wa/"), ("dir-dot", b"d.x/a.wz"),
+    ("space-after", b"a.wa "), ("backslash", b"d\\a.wat"), ("nonascii-base", "凹.wa".encode()), ("nonascii-ext", "a.凹".encode()),
+    ("kelvin", "a.\u212aa".encode()), ("fullwidth", "a.ｗａ".encode()), ("invalid-utf8", b"a\xff.wa"), ("invalid-utf8-ext", b"a.w\xffa"),
+    ("wasm", b"a.wasm"), ("long", b"a" * 300 + b".wz"), ("s-only", b"wa.s"), ("was", b"a.was"), ("wa-s-dir", b"a.wa.s/b"),
+]
+
+# contents that start with each token class of each scanner
+CONTENT_CLASSES = [
+    ("empty", b""), ("spaces", b" \n\t\r\n"), ("wa-keyword", b"func main() {\n\tprintln(1)\n}\n"), ("wa-keyword-unformatted", b"func   main( ) {println( 1 )}"),
+    ("wa-import", b'import "fmt"\n'), ("wa-comment-then-keyword", b"// hello\nfunc main() {}\n"), ("wa-blockcomment-then-keyword", b"/* a */ type T int\n"),
+    ("wz-keyword", "函数·主控:\n\t输出(1)\n完毕\n".encode()), ("wz-keyword-unformatted", "函数·主控:\n输出( 1 )\n完毕".encode()),
+    ("wz-import", '引入 "书"\n'.encode()), ("wz-comment", "注: 你好\n".encode()), ("wz-comment-then-int", "注: 你好\n1\n".encode()),
+    ("comment-only", b"// just a comment\n"), ("comment-then-int", b"// c\n42\n"), ("int", b"1"), ("float", b"1.5"), ("ident", b"x"),
+    ("nonascii-ident", "变量".encode()), ("string", b'"abc"'), ("char", b"'a'"), ("lparen", b"("), ("wat-module", b"(module)"),
+    ("wat-module-func", b"(module (func $f (result i32)\n i32.const 1\n))"), ("wat-comment-module", b";; c\n(module)\n"),
+    ("semicolon", b";"), ("hash-comment-asm", b"# c\n.section .text\nf:\n\tnop\n"), ("asm-section", b".section .text\nf:\n\tnop\n"),
+    ("asm-intel", b".intel_syntax noprefix\n.section .text\n"), ("asm-zh", "函数 f:\n完毕\n".encode()), ("dot", b"."), ("dollar", b"$x"),
+    ("at", b"@x"), ("backslash", b"\\"), ("hash-only", b"#"), ("hash-wa-build", b"#wa:build wasm\nfunc main() {}\n"), ("nul", b"\x00"),
+    ("nul-then-keyword", b"\x00func"), ("bad-utf8", b"\xff\xfe"), ("bom", BOM), ("bom-keyword", BOM + b"func main() {}\n"),
+    ("bom-wat", BOM + b"(module)"), ("illegal-then-module", b"\\ (module)"), ("question-module", b"? module"), ("backquote", b"`"),
+    ("unterminated-string", b'"abc'), ("unterminated-comment", b"/* abc"), ("unterminated-char", b"'"), ("percent-reg", b"%hi(x)"),
+    ("keyword-like-ident", b"function"), ("wa-keyword-mid", b"x func"), ("operator", b"+"), ("ellipsis", b"..."), ("colon", b":"),
+    ("crlf-keyword", b"\r\nfunc main() {}\r\n"), ("wat-keyword-after-illegal", b"\x01 module"), ("nasm-keyword-bare", b".text"),
+    ("nasm-global", b".global f"), ("wat-keyword-bare", b"module"), ("wat-i32", b"i32"), ("tilde", b"~"), ("zh-punct", "：".encode()),
+]
+
+
+def hexs(b):
+    return b.hex() if b else "-"
+
+
+def file_spec(path, n=-1):
+    return "@%s:%d" % (path.encode().hex(), n)
+
+
+def content_of(spec):
+    if spec.startswith("@"):
+        ph, n = spec[1:].rsplit(":", 1)
+        d = open(bytes.fromhex(ph).decode(), "rb").read()
+        n = int(n)
+        return d if n < 0 else d[:n]
+    return b"" if spec == "-" else bytes.fromhex(spec)
+
+
+class Gen:
+    def __init__(self, ctx, seeds, skip_eps=()):
+        self.ctx, self.rng, self.seeds, self.tier = ctx, ctx.rng, seeds, ctx.tier
+        self.skip = set(skip_eps)
+        self.inputs = {}          # id -> dict(stream, lang, name, spec, size, eps, desc)
+        self.order = []
+
+    def add(self, stream, lang, name, spec, size, eps, desc):
+        eps = [e for e in eps if e not in self.skip]
+        if not eps:
+            return
+        i = "%s%d" % (stream, len(self.order))
+        self.inputs[i] = {"stream": stream, "lang": lang, "name": name, "spec": spec, "size": size, "eps": eps, "desc": desc}
+        self.order.append(i)
+
+    def eps_for(self, lang, load_p, cross_p, name=None):
+        rng = self.rng
+        eps = list(OWN_EPS[lang])
+        if lang in LOAD_EP and rng.random() < load_p:
+            eps.append(LOAD_EP[lang])
+        if rng.random() < cross_p:
+            eps += [e for e in ALL_EPS if e not in eps and not e.startswith("load")]
+        return eps
+
+    def name_for(self, lang):
+        # mostly the language's own extension; sometimes an unknown one, so that DetectLang scans the content
+        r = self.rng.random()
+        if r < 0.7:
+            return OWN_NAME[lang]
+        return self.rng.choice([b"c08.txt", b"c08", b"c08.s", b"c08.WA", b"c08.Wz", b"c08.wat", b"c08.wz.s"])
+
+    def pick_seed(self, lang=None):
+        rng = self.rng
+        lang = lang or rng.choices(["wa", "wz", "wat", "asm"], weights=[5, 3, 3, 3])[0]
+        for _ in range(20):
+            p = rng.choice(self.seeds.by_lang[lang])
+            if 0 < len(self.seeds.get(p)) <= 65536:
+                return lang, p
+        return lang, p
+
+    def stream_seeds(self, load_every):
+        for k, p in enumerate(self.seeds.paths):
+            lang = lang_of(p)
+            eps = list(OWN_EPS[lang])
+            if lang in LOAD_EP and k % load_every == 0:
+                eps.append(LOAD_EP[lang])
+            self.add("seed", lang, os.path.basename(p).encode(), file_spec(p), len(self.seeds.get(p)), eps, "seed " + os.path.relpath(p, vlib.REPO))
+
+    def stream_token_mut(self, n, load_p):
+        for _ in range(n):
+            lang, p = self.pick_seed()
+            d, names = mutate_tokens(self.rng, self.seeds.get(p), self.seeds.tokens(p), lang, self.seeds.token_pool(lang, self.rng), self.tier)
+            big = len(d) > 300000
+            self.add("tok", lang, self.name_for(lang), hexs(d), len(d), self.eps_for(lang, 0 if big else load_p, 0.1),
+                     "token mutation %s of %s" % ("+".join(names), os.path.relpath(p, vlib.REPO)))
+
+    def stream_byte_mut(self, n, load_p):
+        for _ in range(n):
+            lang, p = self.pick_seed()
+            d, names = mutate_bytes(self.rng, self.seeds.get(p), self.seeds, lang)
+            self.add("byte", lang, self.name_for(lang), hexs(d), len(d), self.eps_for(lang, load_p, 0.15),
+                     "byte mutation %s of %s" % ("+".join(names), os.path.relpath(p, vlib.REPO)))
+
+    def stream_trunc(self, per_seed, load_p, max_total=None):
+        """truncations at token boundaries: every boundary (per_seed=None) or a sample"""
+        total = 0
+        for p in self.seeds.paths:
+            lang = lang_of(p)
+            toks = self.seeds.tokens(p)
+            cuts = sorted({b for k, a, b in toks} | {a for k, a, b in toks if k in ("str", "bc", "lc") and False})
+            # also cut INSIDE strings/comments/numbers (unterminated literal at end of input)
+            inner = [(a + b) // 2 for k, a, b in toks if k in ("str", "bc", "num", "lc") and b - a >= 2]
+            if per_seed is not None:
+                cuts = sorted(set(self.rng.sample(cuts, min(per_seed, len(cuts))) + self.rng.sample(inner, min(max(1, per_seed // 3), len(inner)))))
+            else:
+                cuts = sorted(set(cuts + inner))
+            for c in cuts:
+                if max_total is not None and total >= max_total:
+                    return
+                total += 1
+                eps = list(OWN_EPS[lang])
+                if lang in LOAD_EP and self.rng.random() < load_p:
+                    eps.append(LOAD_EP[lang])
+                self.add("trunc", lang, OWN_NAME[lang], file_spec(p, c), c, eps, "truncation at %d of %s" % (c, os.path.relpath(p, vlib.REPO)))
+
+    def stream_names(self):
+        for ncls, name in NAME_CLASSES:
+            for ccls, content in CONTENT_CLASSES:
+                self.add("name", "wa", name, hexs(content), len(content), ["syntax", "format"], "name class %s, content class %s" % (ncls, ccls))
+
+    def stream_deep(self, sizes, load_max):
+        for lang in ("wa", "wz", "wat", "asm"):
+            for fam in deep_family(lang, None, 1):
+                for D in sizes:
+                    d = deep_family(lang, fam, D)
+                    eps = [e for e in OWN_EPS[lang] if e != "format" or D <= 100000]
+                    if lang in LOAD_EP and D <= load_max:
+                        eps.append(LOAD_EP[lang])
+                    self.add("deep", lang, OWN_NAME[lang], hexs(d), len(d), eps, "family %s/%s size %d" % (lang, fam, D))
+
+
+# ------------------------------------------------------------------------------------------------ oracle
+
+BAD = ("panic", "timeout", "exit", "fatal", "signal", "batchdeath")
+LEAF_PKGS = ("internal/ast.", "internal/token.", "internal/constant.", "internal/wat/token.", "internal/native/token.")
+
+
+def pkg_of(func):
+    m = re.match(r"((?:[\w.-]+/)*[\w-]+)\.", func or "")
+    return m.group(1) if m else (func or "?")
+
+
+def key_of(rec):
+    """root-cause key of a bad record: kind + site (function for panics, package for hangs / overflows) + message class"""
+    _, ep, outcome, _, _, detail = rec
+    d = detail.split()
+    if d and d[0] in ("synok", "synerr"):
+        d = d[1:]
+    if outcome == "panic":
+        site = d[0] if d else "?:0:?"
+        func = site.split(":", 2)[2] if site.count(":") >= 2 else site
+        msg = d[1] if len(d) > 1 else "-"
+        return "panic:%s:%s" % (func, msg)
+    if outcome == "timeout":
+        return "timeout:%s:%s" % (ep, pkg_of(d[0] if d else "?"))
+    if outcome in ("exit", "fatal", "signal"):
+        kind = d[0] if d else outcome
+        site = d[1] if len(d) > 1 else "?"
+        if kind.startswith("fatal:stack-overflow") or kind.startswith("fatal:out-of-memory"):
+            return "%s:%s:%s" % (kind, ep, pkg_of(site))
+        return "%s:%s:%s" % (kind, ep, site)
+    return "%s:%s:%s" % (outcome, ep, "_".join(d)[:60])
+
+
+def make_batches(gen, ids, max_inputs=120, max_bytes=6 << 20):
+    batches, cur, curb = [], [], 0
+    for i in ids:
+        inp = gen.inputs[i]
+        w = inp["size"] * len(inp["eps"]) + (400000 if any(e.startswith("load") for e in inp["eps"]) else 0)
+        if cur and (len(cur) >= max_inputs or curb + w > max_bytes):
+            batches.append(cur)
+            cur, curb = [], 0
+        cur.append(i)
+        curb += w
+    if cur:
+        batches.append(cur)
+    return batches
+
+
+def batch_lines(gen, ids):
+    return ["%s %s %s %s" % (i, ",".join(gen.inputs[i]["eps"]), hexs(gen.inputs[i]["name"]), gen.inputs[i]["spec"]) for i in ids]
+
+
+def explore(ctx, h, gen, ids, tag, workers=16, scale=1.0):
+    batches = make_batches(gen, ids)
+    # big batches first (better packing)
+    recs = []
+    with cf.ThreadPoolExecutor(workers) as ex:
+        futs = [ex.submit(run_batch, h, batch_lines(gen, b), ctx.tmp, "%s%d" % (tag, k), scale) for k, b in enumerate(batches)]
+        for fu in futs:
+            recs += fu.result()
+    return recs
+
+
+def show(b, n=160):
+    r = repr(b[:n])[2:-1]
+    return r + ("…(+%d bytes)" % (len(b) - n) if len(b) > n else "")
+
+
+def ddmin(test, data, budget=150):
+    """delta debugging on bytes: smallest found input for which test(data) is still True"""
+    n = 2
+    calls = 0
+    while len(data) >= 2 and calls < budget:
+        chunk = max(1, len(data) // n)
+        reduced = False
+        for i in range(0, len(data), chunk):
+            cand = data[:i] + data[i + chunk:]
+            calls += 1
+            if cand != data and test(cand):
+                data = cand
+                n = max(n - 1, 2)
+                reduced = True
+                break
+            if calls >= budget:
+                break
+        if not reduced:
+            if chunk == 1:
+                break
+            n = min(n * 2, len(data))
+    return data
+
+
+def minimise(h, workdir, tag, ep, name, data, key, budget=150, scale=1.0):
+    cnt = [0]
+
+    def test(d):
+        cnt[0] += 1
+        r = run_single(h, ["m", ep, hexs(name), hexs(d)], ep, workdir, "%s.m" % tag, scale)
+        return r[2] in BAD and key_of(r) == key
+    if not test(data):
+        return None          # not reproducible alone
+    if len(data) > 2000000:
+        return data
+    # cheap first step for the size families: halve while it still fails
+    small = ddmin(test, data, budget)
+    return small
